@@ -138,6 +138,7 @@ pub fn random_fin(rng: &mut StdRng) -> FinCfg {
 /// One random history over the full menu of calls, including premature advance attempts.
 pub fn random_history(t: &mut Tracer, rng: &mut StdRng, note: &str) -> String {
     let rq = random_rq(rng);
+    FRAMING_IN_PREPARE.with(|x| x.set(rng.gen_bool(0.3)));
     let body_due = matches!(rq.method.as_str(), "POST" | "PUT" | "PATCH") || rq.despite;
     let early = if rq.expect && body_due && rng.gen_bool(0.7) {
         Some(EarlyMsg::new(["100", "refuseBare", "refuseFields", "refuseFieldsClose"][rng.gen_range(0..4)], rng.gen_range(0..8)))
@@ -210,7 +211,8 @@ pub fn random_history(t: &mut Tracer, rng: &mut StdRng, note: &str) -> String {
                     sim.op_proceed(t);
                     continue;
                 }
-                match rng.gen_range(0..7) {
+                match rng.gen_range(0..8) {
+                    7 => sim.op_sb_direct(t, [0usize, 1, 2, 3][rng.gen_range(0..4)]),
                     0 => sim.op_can_proceed(t),
                     1 => sim.op_sb_write(t, false, false),
                     2 => sim.op_sb_write(t, false, true),
@@ -301,6 +303,7 @@ pub fn c09(o: &Opts, t: &mut Tracer) -> Value {
 /// Redirect (if entered) and in Cleanup.
 pub fn run_to_cleanup(t: &mut Tracer, rq: RqCfg, early: Option<EarlyMsg>, give_up: bool, fin: &FinCfg, v: usize, note: &str) {
     let despite = rq.despite;
+    FRAMING_IN_PREPARE.with(|x| x.set(v % 3 == 1));
     let mut sim = match Sim::new(t, rq, early.clone(), v, note) {
         Some(s) => s,
         None => return,
@@ -329,7 +332,12 @@ pub fn run_to_cleanup(t: &mut Tracer, rq: RqCfg, early: Option<EarlyMsg>, give_u
                 sim.op_proceed(t);
             }
             "SendBody" => {
-                sim.op_sb_write(t, false, true);
+                if v % 4 == 2 && sim.rq.framing == "cl2" {
+                    // the two declared bytes go to the transport directly; the end is signalled as usual
+                    sim.op_sb_direct(t, 2);
+                } else {
+                    sim.op_sb_write(t, false, true);
+                }
                 sim.op_sb_write(t, true, true);
                 sim.op_proceed(t);
             }
@@ -450,6 +458,22 @@ pub fn c10(o: &Opts, t: &mut Tracer) -> Value {
             }
         }
     }
+    // every final status on an exchange where none of the five conditions holds (and with the response asking to keep the
+    // connection): the verdict does not depend on what the status says
+    for st in 200u16..=999 {
+        if o.quick() && st >= 600 && st % 25 != 24 {
+            continue;
+        }
+        for (k, conn) in ["absent", "keepalive"].iter().enumerate() {
+            let method = ["GET", "POST", "HEAD"][(st as usize + k) % 3];
+            let rq = RqCfg { method: method.into(), ver10: false, expect: false, connclose: false, despite: false, framing: if method == "POST" { "cl2".into() } else { "default".into() }, conn_other: None, expect_extra: false };
+            let fin = FinCfg { status: st, resp10: false, cl: ["zero", "n"][(st as usize / 2) % 2].into(), te: "absent".into(), conn: conn.to_string(), loc: None, reason: "R".into() };
+            t.sig(format!("c10/status/{}/{}", st, conn));
+            run_to_cleanup(t, rq, None, false, &fin, st as usize, "status-sweep");
+            n += 1;
+        }
+    }
+    t.class("c10:every-status-without-a-condition");
     json!({"combinations": n, "truncated_3xx": ntrunc})
 }
 
@@ -461,7 +485,7 @@ pub fn c11(o: &Opts, t: &mut Tracer) -> Value {
     for round in 0..rounds {
         for ver10 in [false, true] {
             for (ki, kind) in kinds.iter().enumerate() {
-                for variant in 0..8usize {
+                for variant in 0..10usize {
                     let early = EarlyMsg::new(kind, variant);
                     let total = early.bytes.len();
                     // the caller looks at every prefix length (cumulatively re-presented), then both later paths
@@ -483,6 +507,7 @@ pub fn c11(o: &Opts, t: &mut Tracer) -> Value {
                                          framing: ["default", "cl2", "chunked", "cl0"][(variant + give_up_at / 2 + round) % 4].into(),
                                          conn_other: if (give_up_at + variant) % 4 == 1 { Some("keep-alive") } else { None }, expect_extra: (give_up_at + 2 * variant) % 5 == 2 };
                         let fin = random_fin(&mut rng);
+                        FRAMING_IN_PREPARE.with(|x| x.set((variant + give_up_at) % 4 == 2));
                         let mut sim = match Sim::new(t, rq, Some(early.clone()), give_up_at, "c11") {
                             Some(s) => s,
                             None => continue,
@@ -576,6 +601,9 @@ pub fn c11(o: &Opts, t: &mut Tracer) -> Value {
                                 }
                                 "Redirect" => {
                                     sim.op_verdict(t);
+                                    // "usable to completion" includes following the redirect the exchange ended in
+                                    sim.op_new_flow(t, (variant + give_up_at) % 2 == 0);
+                                    t.class("c11:redirect-followed");
                                     sim.op_proceed(t);
                                 }
                                 "Cleanup" => {
